@@ -88,7 +88,7 @@ func (c12) Gen(rt *rapid.T, thorough bool) any {
 	s.Cycle = rapid.IntRange(0, 3).Draw(rt, "cycle") == 0
 	s.BadHandle = rapid.IntRange(0, 9).Draw(rt, "bad_handle") == 0
 	s.HandleOnly = s.Via == "refresh" && rapid.IntRange(0, 2).Draw(rt, "handle_only12") == 0
-	if s.Kind == "File" && rapid.IntRange(0, 2).Draw(rt, "write_fail") == 0 {
+	if (s.Kind == "File" || s.Kind == "Console") && rapid.IntRange(0, 2).Draw(rt, "write_fail") == 0 {
 		s.WriteFailAt = rapid.IntRange(1, 4).Draw(rt, "write_fail_at")
 	}
 	if s.Via == "refresh" && rapid.IntRange(0, 3).Draw(rt, "odd_name") == 0 {
@@ -183,6 +183,10 @@ func runC12Refresh(x *Exec, s *AsyncScn) {
 		spec.Apps = append(spec.Apps, AppSpec{Name: "unused", Type: "Discard"})
 	case "Console":
 		spec.Apps = append(spec.Apps, AppSpec{Name: "unused", Type: "Discard"})
+		if s.WriteFailAt > 0 {
+			// the stream rejects one write (a pipe that was full, an interrupted call): only that one may be missing
+			x.FS.AddFault(&simos.FaultRule{Op: "write", Prefix: "/dev/stdout", Err: syscall.EAGAIN, Skip: s.WriteFailAt - 1, Count: 1})
+		}
 	}
 	spec.Logs = []LogSpec{lg}
 	h := log.GetLogger(hname)
@@ -378,6 +382,9 @@ func runC12Writers(x *Exec, s *AsyncScn, sys *asyncSys, write func([]byte) (int,
 					emptiesWant++
 				}
 			}
+		}
+		if failedOS[""] && emptiesWant > 0 {
+			emptiesWant-- // the one write the OS refused was an empty one
 		}
 		for _, got := range seq {
 			if len(got) == 0 {
